@@ -23,6 +23,18 @@ CLAIMS: dict[str, dict[str, str]] = {
         design="DESIGN.md section 5, C18"),
 }
 
+CLAIMS["C17"] = dict(
+    text="Decided by structural identity: the JSON schema is re-derived from the AST of the serialization model classes "
+         "(fields, annotations, Literal tags, defaults, unions, config, strict/lax switch as applied by _pydantic_rebuild) "
+         "and compared definition by definition (incl. property and required order) with all four published files; "
+         "the version literal, file names and generator calls are tied together; model classes are shown to carry no "
+         "acceptance logic outside their declared fields (validators, constructors, aliases).",
+    note="Trusted: pydantic generates for the supported subset the schema engine E derives (confirmed identical on the "
+         "unchanged tree for 262 definitions) and accepts a document iff its own schema does; the SemanticVersion "
+         "pattern is taken from the published file.",
+    technique="static analysis: schema-from-AST derivation + structural identity with the published JSON files",
+    design="DESIGN.md section 5, C17")
+
 NOT_APPLICABLE_REASON: dict[str, str] = {}
 
 
